@@ -193,7 +193,8 @@ def cache_coherence(I, values, Fp, pc, assume, name, out):
                 fin = v.fields.get(f, _MISSING)
                 if type(fin).__name__ == "PendingCache":
                     continue        # never looked at since a callee established coherence (or since the pre-state)
-                if fin is v0 or (fin is not _MISSING and not isinstance(fin, (Arr, Poly, Obj, tuple, list)) and fin == v0):
+                if fin is v0 or (fin is not _MISSING and not isinstance(fin, (Arr, Poly, Obj, tuple, list)) and fin == v0) or \
+                        (fin is _MISSING and type(v0).__name__ == "object"):
                     continue
                 cname = "%s.cache.%s.%s" % (name, v.cls.name, f)
                 if filler is None or fin is _MISSING:
@@ -214,6 +215,42 @@ def cache_coherence(I, values, Fp, pc, assume, name, out):
                     if c.status != "discharged":
                         c.detail = ("cache %s.%s after the call is not what %s() computes from the object's current state "
                                     "(stale or wrongly filled): %s" % (v.cls.name, f, filler.node.name, c.detail))
+            # functools.cached_property entries present in the object's __dict__: equal to what the getter computes NOW
+            ci = v.cls
+            names = set()
+            seen_c = set()
+
+            def cached_names(c):
+                if c is None or id(c) in seen_c:
+                    return
+                seen_c.add(id(c))
+                names.update(getattr(c, "cached", {}))
+                for b in c.bases:
+                    cached_names(I.classes.get(b))
+            cached_names(ci)
+            for f in sorted(names & set(v.fields)):
+                fin = v.fields[f]
+                if type(fin).__name__ == "PendingCache" or f in getattr(v, "cf", {}):
+                    continue        # never looked at, or already judged above
+                cp = Obj(v.cls, {k: x for k, x in v.fields.items() if k != f})
+                cp.cf = {}
+                saved = I.assumed
+                I.assumed = set(pc) | set(assume)
+                try:
+                    exp = I.getattr(cp, f)
+                except (PyRaise, ModelError, Unsupported):
+                    exp = _MISSING
+                finally:
+                    I.assumed = saved
+                cname = "%s.cache.%s.%s" % (name, v.cls.name, f)
+                if exp is _MISSING:
+                    out.append(Clause(cname, "undecided", "", "the cached property %s cannot be re-evaluated in the post-state" % f))
+                    continue
+                n0 = len(out)
+                V.compare(fin, exp, Fp, cname, out)
+                for c in out[n0:]:
+                    if c.status != "discharged":
+                        c.detail = "cached property %s.%s holds a value that is not what it computes from the object's current state (stale): %s" % (v.cls.name, f, c.detail)
             for x in v.fields.values():
                 walk(x)
         elif isinstance(v, (list, tuple)):
